@@ -276,7 +276,7 @@ def parse_module(text):
 class Emit:
     def __init__(s, fn, tid=None, seq=False):
         s.f = fn; s.tid = tid; s.seq = seq; s.out = []; s.regs = {}; s.pfx = ('t%d_' % tid) if seq else ''
-        s.nvis = 0; s.resume = []
+        s.nvis = 0; s.resume = []; s.allocas = []
     def reg(s, name, ty=None):
         key = mangle(name)
         if ty is not None and key not in s.regs: s.regs[key] = ty
@@ -505,7 +505,12 @@ def translate_function(f, tid=None, seq=False, opts=None):
             if op == 'alloca':
                 ty = M.parse_type(tk)
                 e.reg(dst, PtrT(ty))
-                out.append('  { static %s al_%s%s; %s = &al_%s%s; }' % (ty.c(), e.pfx, mangle(dst), e.reg(dst), e.pfx, mangle(dst)))
+                if seq:
+                    out.append('  { static %s al_%s%s; %s = &al_%s%s; }' % (ty.c(), e.pfx, mangle(dst), e.reg(dst), e.pfx, mangle(dst)))
+                else:
+                    # plain mode: automatic storage (recursive activations must not share their frames)
+                    e.allocas.append((ty, mangle(dst)))
+                    out.append('  %s = &al_%s;' % (e.reg(dst), mangle(dst)))
             elif op == 'load':
                 atomic = tk.eat('atomic'); vol = tk.eat('volatile')
                 ty = M.parse_type(tk); tk.expect(','); pt = M.parse_type(tk); p = parse_value(tk, pt)
@@ -635,7 +640,7 @@ def translate_function(f, tid=None, seq=False, opts=None):
                         at = M.parse_type(tk); skip_attrs(tk); args.append(parse_value(tk, at))
                         if tk.eat(')'): break
                         tk.expect(',')
-                if callee.kind == 'global' and callee.v.startswith('llvm.lifetime'): continue
+                if callee.kind == 'global' and (callee.v.startswith('llvm.lifetime') or callee.v.startswith('llvm.assume') or callee.v.startswith('llvm.dbg') or callee.v.startswith('llvm.experimental.noalias')): continue
                 if callee.kind == 'global' and callee.v.startswith('llvm.mem'):
                     fn = {'llvm.memset': 'memset', 'llvm.memcpy': 'memcpy', 'llvm.memmove': 'memmove'}[callee.v[:11] if callee.v[5:11] != 'memmov' else 'llvm.memmove'] if False else ('memset' if 'memset' in callee.v else 'memcpy' if 'memcpy' in callee.v else 'memmove')
                     visible()
@@ -673,8 +678,10 @@ def translate_function(f, tid=None, seq=False, opts=None):
                 if callee.kind == 'global' and callee.v.startswith('nondet_'):
                     e.reg(dst, rty)
                     out.append('  %s = (%s)VERIF_CHOICE();' % (e.reg(dst), rty.c())); continue
+                if callee.kind == 'global' and callee.v == 'verif_stop' and not seq:
+                    # the logical thread ends inside a non-inlined callee: propagate like an exception up to the thread function
+                    out.append('  VERIF_STOP_REQ = 1; %s' % ('return;' if isinstance(f.ret, VoidT) else 'return (%s)0;' % f.ret.c() if not isinstance(f.ret, (StructT, LitStructT, ArrT)) else 'return (%s){0};' % f.ret.c())); continue
                 if callee.kind == 'global' and callee.v == 'verif_stop':
-                    if not seq: raise NotImplementedError('verif_stop in plain function ' + f.name)
                     out.append('  TH[%d].done = 1; TH[%d].pc = -1; VERIF_PROG = 1; return;' % (tid, tid)); continue
                 if callee.kind == 'global' and callee.v == 'verif_yield':
                     if seq:
@@ -699,11 +706,14 @@ def translate_function(f, tid=None, seq=False, opts=None):
                 if callee.kind == 'global' and callee.v == 'verif_witness':
                     out.append('  __CPROVER_assert(!(%s), "WITNESS %s");' % (e.cval(args[0]), 'end state reachable')); continue
                 if callee.kind == 'global': CALLED.add(callee.v)
-                if seq and callee.kind == 'global' and callee.v.startswith('verif_'): visible()
+                if seq and callee.kind == 'global' and callee.v.startswith('verif_') and callee.v not in ('verif_after_resume', 'verif_m_child_start'): visible()   # these two complete a parking point atomically
                 call = '%s(%s)' % (cfname(callee.v) if callee.kind == 'global' else '(%s)' % e.cval(callee), ', '.join(e.cval(a) for a in args))
                 if dst and not isinstance(rty, VoidT):
                     e.reg(dst, rty); out.append('  %s = %s;' % (e.reg(dst), call))
                 else: out.append('  %s;' % call)
+                if not (callee.kind == 'global' and (callee.v in RUNTIME_PROVIDED or callee.v.startswith('verif_') or callee.v in M.decls)):
+                    if seq: out.append('  if (VERIF_STOP_REQ) { VERIF_STOP_REQ = 0; TH[%d].done = 1; TH[%d].pc = -1; VERIF_PROG = 1; return; }' % (tid, tid))
+                    else: out.append('  if (VERIF_STOP_REQ) %s' % ('return;' if isinstance(f.ret, VoidT) else 'return (%s)0;' % f.ret.c() if not isinstance(f.ret, (StructT, LitStructT, ArrT)) else 'return (%s){0};' % f.ret.c()))
             else:
                 raise NotImplementedError(op + ' :: ' + s)
     return e
@@ -844,7 +854,7 @@ def main():
     P('#ifndef VERIF_NATIVE\nlong nondet_long(void); long VERIF_NDV;\n#define VERIF_CHOICE() (VERIF_NDV = nondet_long())\n#define VERIF_TRACE(t, cs)\n#endif')
     P('\n'.join(decls))
     P('int PEND_V[8], PEND_L[8]; uint64_t PEND_X[8]; static void tso_commit(int t);')
-    P('struct th { int pc; int done; int blocked; int spin; int held; }; int CUR_TID; int VERIF_STUCK; int VERIF_PROG; struct th TH[%d];' % max(1, N))
+    P('struct th { int pc; int done; int blocked; int spin; int held; }; int CUR_TID; int VERIF_STUCK; int VERIF_PROG; int VERIF_STOP_REQ; struct th TH[%d];' % max(1, N))
     # prototypes
     def proto(f, name=None):
         ps = ', '.join(p[0].c() for p in f.params)
@@ -860,7 +870,7 @@ def main():
         P(proto(f) + ';')
     P('#ifdef VERIF_NATIVE')
     for n, d in M.decls.items():
-        if n in havoc_ok and n in CALLED:
+        if n in havoc_ok:
             ps = ', '.join('%s a%d' % (p[0].c(), i) for i, p in enumerate(d.params))
             if d.va: ps = (ps + ', ...') if ps else ''
             body = '{ }' if isinstance(d.ret, VoidT) else '{ return (%s)0; }' % d.ret.c()
@@ -898,6 +908,7 @@ def main():
         for k, ty in em.regs.items():
             if k in pk: continue
             P('  %s r_%s;' % (ty.c(), k))
+        for ty, nm in em.allocas: P('  %s al_%s;' % (ty.c(), nm))
         P('\n'.join(em.out)); P('}')
     if opts.get('tso'):
         P('static void tso_commit(int t) { if (PEND_V[t]) { switch (PEND_L[t]) {')
